@@ -382,6 +382,7 @@ class AoefSim:
                              f"to_aeof accepted a recording outside audio_dir={audio!r}")
             return
         if reply["outcome"] != "ack":
+            self.inside_refused(node, src, audio, reply, described["type"], n)
             self.violate("C01", f"C01:save-raised:{reply.get('exc')}",
                          f"to_aeof of a valid {described['type']} raised: {reply.get('msg')}")
             return
@@ -394,6 +395,26 @@ class AoefSim:
         self.probes.hit("mem:to_aeof")
         # (no document oracle here: the text of an in-memory document would
         # be the harness's dump of it, not something `save` wrote)
+
+    def inside_refused(self, node, src, audio, reply, type_name, n):
+        """A save with an audio directory raised although no fault fired and
+        every recording lies inside that directory. If the same object is
+        written without an audio directory, the directory is what made it
+        fail: saving with an audio directory must store relative paths, and
+        may fail only for a recording outside it (C18)."""
+        if audio is None or not self.active("C18"):
+            return
+        probe = node.call("mem_save", src=src, doc="__inside_refused_probe",
+                          audio_dir=None, _env=self.env(None, n))
+        self.probes.hit("C18:refused-save-retried-without-audio-dir")
+        if probe["outcome"] == "ack":
+            self.violate(
+                "C18", "C18:inside-refused",
+                f"{type_name} saved with audio_dir={audio!r} raised "
+                f"{reply.get('exc')} ({reply.get('msg')}) although every "
+                f"recording lies inside it and the same object is written "
+                f"without an audio directory",
+            )
 
     def do_mem_load(self, op):
         entry = self.memdocs.get(op["d"])
@@ -687,6 +708,7 @@ class AoefSim:
                 self.files[p] = (
                     entry_before if before == after else {"status": "torn"}
                 )
+                self.inside_refused(node, src, audio, reply, described["type"], n)
                 self.violate(
                     "C01",
                     f"C01:save-raised:{reply['exc']}",
